@@ -3,7 +3,7 @@ import ast
 
 from ..model import (AnalysisError, FUNC_TYPES, U, call_attr, call_name, dotted, enclosing, enclosing_function, guard_texts, guards_ex,
                      short, walk_body, walk_local, ancestors, parent, const_str, kwarg)
-from ..util import params, find_calls, assigns_to, trace, stmt_of, has_exit, syn_dominates, lexically_before
+from ..util import params, find_calls, assigns_to, trace, stmt_of, has_exit, syn_dominates, lexically_before, line_loop, some_truthy
 from ..settype import Kinds, iterations, classify_sinks
 
 CL = "insights.cleaner"
@@ -65,19 +65,17 @@ def r2_one_to_one(cx):
     cm = cx.repo.module(CL)
     cc = cm.func("Cleaner.clean_content", "C10.R2")
     lines = params(cc)[1]
-    loops = [s for s in cc.body if isinstance(s, ast.For) and "range(" in U(s.iter)]
+    loops = [s for s in cc.body if isinstance(s, ast.For) and line_loop(s, lines)[0] is not None]
     if not loops:
-        cx.unknown(cc, "no index loop over the lines")
+        cx.unknown(cc, "no loop over the lines")
         return
     lp = loops[0]
-    it = U(lp.iter)
-    idx = U(lp.target)
-    desc = it == "range(len(%s) - 1, -1, -1)" % lines
-    asc = it == "range(len(%s))" % lines
-    cx.require(desc or asc, lp, "the loop visits every index exactly once, monotonically", construct="for %s in %s" % (idx, it))
+    order, cur = line_loop(lp, lines)
+    desc, asc = order == "desc", order == "asc"
+    cx.require(desc or asc, lp, "the loop visits every line exactly once, monotonically", construct="for %s in %s" % (U(lp.target), U(lp.iter)))
     cl = [a for a in walk_body(lp.body) if isinstance(a, ast.Assign) and isinstance(a.value, ast.Call) and call_name(a.value) == "_clean_line"]
-    ok = len(cl) == 1 and U(cl[0].value.args[0]) == "%s[%s]" % (lines, idx)
-    cx.require(ok, cl[0] if cl else lp, "each output line derives from exactly the input line at the loop index", construct=short(cl[0]) if cl else "(none)")
+    ok = len(cl) == 1 and U(cl[0].value.args[0]) == cur
+    cx.require(ok, cl[0] if cl else lp, "each output line derives from exactly the input line of this iteration", construct=short(cl[0]) if cl else "(none)")
     aps = [x for x in find_calls(lp.body, attr="append") if U(x.func.value) == "result"]
     ok = len(aps) == 1 and bool(cl) and U(aps[0].args[0]) == U(cl[0].targets[0]) and enclosing(aps[0], (ast.For, ast.While)) is lp
     cx.require(ok, aps[0] if aps else lp, "at most one result is appended per input index", construct=short(aps[0]) if aps else "(none)")
@@ -97,10 +95,14 @@ def r3_empty(cx):
     cc = cm.func("Cleaner.clean_content", "C10.R3")
     rets = [r for r in cc.body if isinstance(r, ast.Return)]
     res_ret = [r for r in walk_body(cc.body) if isinstance(r, ast.Return) and U(r.value) == "result"]
-    ok = bool(rets) and U(rets[-1].value) == "[]" and bool(res_ret)
+    empties = [r for r in walk_body(cc.body) if isinstance(r, ast.Return) and U(r.value) == "[]"]
+    ok = bool(empties) and bool(res_ret)
     if ok:
         g = set(guard_texts(res_ret[0]))
-        ok = ("result", True) in g and ("any((l for l in result))", True) in g
+        ok = some_truthy(g, "result") is True
+        # and the [] return covers the complementary case
+        ge = set(guard_texts(empties[-1]))
+        ok = ok and (some_truthy(ge, "result") is False or empties[-1] is cc.body[-1])
     cx.require(ok, res_ret[0] if res_ret else cc, "the cleaned list is returned only when some line is truthy; otherwise [] is returned",
                construct="if result and any(l for l in result): ... return result ; return []")
     for r in [x for x in walk_body(cc.body) if isinstance(x, ast.Return) and enclosing_function(x) is cc]:
